@@ -235,7 +235,10 @@ def restart_same_string(ctx):
             # the guard side is the `find` whose result feeds the checked get / is_ascii_digit test
             (guard_side if any(re.search(r'is_ascii_digit$|str>?::get(::<.*>)?$', n) for n in names | {callee_name(t2) for y in scope if y.startswith(x + '::{closure') for _, t2 in f.bodies[y].calls()})
              and x != b.path else parse_side).append(entry)
-    if not guard_side or not parse_side:
+    if guard_side and not parse_side:
+        # the number is taken by the very code the filter uses (one helper, no second lookup in the root body): same string by construction
+        return True, f"one lookup shared by filter and number ({guard_side[0][0]})"
+    if not guard_side:
         raise CheckError(f"R10.1 restart number: guard side {guard_side} / parse side {parse_side} not recognised")
     g = {tuple(e[2]) for e in guard_side}
     if len(g) != 1 or any(e[3] for e in guard_side) or not next(iter(g)):
